@@ -88,8 +88,51 @@ func runReplay(repo, path string) {
 	if wrap.Event != nil {
 		ev := wrap.Event
 		fmt.Printf("re-running extractor %s on %s/%s\n", ev.Extractor, ev.Root, ev.Path)
-		h, cleanup := reharvest(repo, ev.Extractor, ev.Root, ev.Path, string(ev.Content))
+		var h *harvester
+		cleanup := func() {}
+		if ev.Root == "seed" {
+			h = &harvester{emptied: map[string]bool{}, repo: repo, perExtractor: map[string]int{}}
+			for _, g := range seedPackages(h) {
+				if g.src.Extractor == ev.Extractor {
+					h.groups = append(h.groups, g)
+				}
+			}
+		} else {
+			h, cleanup = reharvest(repo, ev.Extractor, ev.Root, ev.Path, string(ev.Content))
+		}
 		defer cleanup()
+		if ev.Mutation != nil {
+			// metadata-mutation stream: apply the recorded mutation to the package it was derived from
+			for _, g := range h.groups {
+				for _, p := range g.pkgs {
+					if p.Name+"@"+p.Version != ev.Package {
+						continue
+					}
+					q, ok := mutatedCopy(p, *ev.Mutation)
+					if !ok {
+						continue
+					}
+					md, _ := json.Marshal(q.Metadata)
+					fmt.Printf("package %s of %s with metadata %s set to %s:\n  %s %s\n", ev.Package, ev.Extractor, metaTypeOf(q.Metadata), describeMutation(*ev.Mutation), metaTypeOf(q.Metadata), md)
+					c := &caseJ{Source: g.src}
+					evs := observe(c, []*extractor.Package{q})
+					for _, e := range evs {
+						fmt.Printf("implementation: %s panics: %s\n", e.What, e.Msg)
+					}
+					for _, w := range [][2]string{{"packageindex.New", c.IndexPanic}, {"proto.ScanResultToProto", c.ProtoPanic}, {"converter.ToSPDX23", c.SpdxPanic}, {"converter.ToCDX", c.CdxPanic}} {
+						if w[1] != "" {
+							fmt.Printf("implementation: %s panics: %s\n", w[0], w[1])
+						}
+					}
+					if len(evs) == 0 && c.IndexPanic+c.ProtoPanic+c.SpdxPanic+c.CdxPanic == "" {
+						fmt.Println("implementation: no panic")
+					}
+					return
+				}
+			}
+			fmt.Println("the package the mutation was derived from is no longer harvested")
+			return
+		}
 		for _, g := range h.groups {
 			c := &caseJ{Source: g.src}
 			for _, e := range observe(c, g.pkgs) {
